@@ -90,6 +90,26 @@ CLAIMED = {
   text="Decides for every change set: destination and source column lists stay index-aligned on every path through the column loop and are printed in the matching positions of INSERT INTO new (…) SELECT … FROM old; a copied value is rewritten only for NOT NULL target columns; a column is left out of the copy only if generated or newly added; rows are copied before the old table is dropped, drop precedes rename precedes index creation; the ALTER path is taken only for kinds alterTable handles; dropping a surviving column is refused.",
   note="Not decided: value equality on a real engine (affinity conversions, IFNULL semantics), that unrelated tables are untouched by the engine. ",
   ref="DESIGN.md §3 C05"),
+ "C03": dict(
+  technique="static analysis: writer/reader key agreement of the HCL codec (table extraction), export-path shape rules, order-sensitivity lint scoped to the inspector and marshaller",
+  text="Level 'other', narrow: decides that every HCL attribute key the SQLite/shared exporter writes is read back by the evaluator, that the SQL export is the dump-mode plan of the inspected realm with one AddTable per table, and that the inspector/marshaller contain no order-sensitive map iteration (so two inspections of an unchanged database are formatted identically). The loop database → export → database is NOT closed by this technique.",
+  note="Not decided: the regular-expression recovery of names, checks, AUTOINCREMENT and generated expressions from stored CREATE statements; equality of the re-created database. ",
+  ref="DESIGN.md §3 C03"),
+ "C15": dict(
+  technique="static analysis: table agreement between ParseType constructions and FormatType cases, HCL writer/reader key agreement, type-attribute/field-name agreement, registry wiring",
+  text="Decides for every dialect: each schema.Type that ParseType can construct has a FormatType case; each HCL attribute key written by the schema→spec direction is read by the spec→schema direction; each declared type attribute maps to a field of a schema.Type struct (otherwise TypeRegistry.Convert drops it silently); each registry is wired to its dialect's parser/formatter.",
+  note="Not decided: zero-vs-absent parameter handling, byte-identical re-marshalling, Format∘Parse fixpoint for every type string. The reader side of the key agreement is recognised liberally (any constant key passed to a look-up helper counts as read). ",
+  ref="DESIGN.md §3 C15"),
+ "C18": dict(
+  technique="static analysis: decision-table extraction of the destructive analyzer, registry exhaustiveness, go/cfg per-statement ordering rules in the change loader, guard rule for the whole-file shortcut",
+  text="Decides that every driver registers the (failing-by-default) destructive analyzer; that the analyzer reports DropSchema, DropTable and DropColumn inside ModifyTable, positions every diagnostic at the examined statement, exempts only objects whose span is exactly temporary, always writes a non-empty report and fails with Error; that SQLite's rebuild merge runs before the analyzers; that changes are derived statement by statement (exec ≺ inspect ≺ diff(before, after) ≺ record with that statement, state advanced) and the whole-file shortcut is used only for the first file without a base; that analyzer errors reach the file report.",
+  note="Not decided: what SQLite and the inspector report for a given SQL text (whether a drop is seen at all), span bookkeeping for every sequence, --latest window selection. ",
+  ref="DESIGN.md §3 C18"),
+ "C20": dict(
+  technique="static analysis: order-sensitivity lint over every map range of both modules (effect classification + sorted-before-escape check, triaged exception table) + call-graph effect analysis for package-level stores",
+  text="Decides for all inputs: every iteration over a Go map in the analysed code is order-insensitive by construction (map/set writes, commutative accumulation, collect-then-sort, element-independent exits) or is a listed, reasoned exception; no package-level variable is written on any path reachable from the planners, differs, marshaller, formatter and hash construction; every PlanChanges allocates its own state. These are the two ways output can depend on run-to-run randomness or on unrelated concurrent work.",
+  note="Not decided: data races under a real scheduler, nondeterminism inside third-party libraries, byte equality across processes (follows only if the above are the sole sources). 14 sites are listed exceptions (reason per site in the checker). ",
+  ref="DESIGN.md §3 C20"),
 }
 
 NA = {}
